@@ -175,8 +175,9 @@ def run_correspondence(ck, known):
     ck.obligation("every site has a baseline statement", nbad_base == 0, "%d cases without baseline" % nbad_base)
     run_tree_tie(ck, list(by_id.values()), "gen+corpus")
 
-    mism = sorted(i for i, v in verd_all.items() if v in (7, 8, 10))
-    viol = sorted(i for i, v in verd_all.items() if v in (1, 2, 4, 5))
+    # 8 = the statement for the HARMLESS marker does not lex: a concrete failing request as well (the case's site with the marker)
+    mism = sorted(i for i, v in verd_all.items() if v in (7, 10))
+    viol = sorted(i for i, v in verd_all.items() if v in (1, 2, 4, 5, 8))
     ck.obligation("spec oracle: token skeleton and literal meaning preserved on %d statements" % total, not viol,
                   "violating case ids: %s" % viol[:10])
     ck.obligation("correspondence: every statement = its baseline shape instantiated with the model's quote/doLike text; every shape passes tpl_ok", not mism,
